@@ -39,7 +39,14 @@ func symCfg() vcfg {
 	if fixed := vrt.Param("ifs", 0); fixed != 0 {
 		// concrete limits chosen by the check configuration
 		c.ifs = uint32(fixed)
-		c.pfs = uint32(vrt.Param("pfs", fixed))
+		if pf := vrt.Param("pfs", fixed); pf >= 0 {
+			c.pfs = uint32(pf)
+		} else {
+			// pfs=-1: concrete index limit, symbolic primary limit
+			c.pfs = vrt.U32("pfs")
+			vrt.Assume(c.pfs >= 1)
+			vrt.Assume(c.pfs <= 1<<30)
+		}
 	} else if vrt.Param("symsizes", 1) != 0 {
 		c.ifs = vrt.U32("ifs")
 		c.pfs = vrt.U32("pfs")
